@@ -107,9 +107,10 @@ def walk(n):
         yield from walk(c)
 
 
-def depth(n):
-    sub = [depth(c) for c in n.args + n.children]
-    own = 0 if n.kind in ('root', 'text', 'comment') else 1
+def depth(n, as_arg=False):
+    """Nesting depth in constructs (an argument group does not count on top of its command)."""
+    sub = [depth(a, True) for a in n.args] + [depth(c) for c in n.children]
+    own = 0 if (n.kind in ('root', 'text', 'comment') or as_arg) else 1
     return own + (max(sub) if sub else 0)
 
 
